@@ -22,14 +22,16 @@ name_alphabet = "abcXYZ019_ -.:%/é"
 
 
 @st.composite
-def tree_case(draw):
-    s = draw(E.kauri_spec(n_max=40, d_max=5, kinds=("normal", "grid", "grid2")))
+def tree_case(draw, large=False):
+    s = draw(E.kauri_spec(n_max=300 if large else 40, d_max=5, kinds=("normal", "grid", "grid2")))
+    if large:
+        s["n"] = draw(st.integers(100, 300))
     s["kernel"]["form"] = "named"
     s["kernel"]["name"] = draw(st.sampled_from(["linear", "rbf", "cosine"]))
     s["min_samples_leaf"] = 1
     s["min_samples_split"] = 2
-    s["max_leaves"] = draw(st.sampled_from([None, 8, 4]))
-    s["max_clusters"] = draw(st.sampled_from([3, 2, 5]))
+    s["max_leaves"] = draw(st.sampled_from([None, 8, 4] if not large else [None, 60, 25]))
+    s["max_clusters"] = draw(st.sampled_from([3, 2, 5] if not large else [4, 8, 12]))
     d = s["d"]
     names = draw(st.lists(st.text(alphabet=name_alphabet, min_size=1, max_size=8).map(str.strip).filter(lambda z: len(z) > 0),
                           min_size=d + 2, max_size=d + 2, unique=True))
@@ -196,5 +198,6 @@ def oracle_refuse(case):
 
 
 def subs():
-    return [Sub("round_trip", tree_case(), oracle_tree, 2000, 40000, "print -> parse -> evaluate == predict"),
+    return [Sub("round_trip_deep", tree_case(large=True), oracle_tree, 40, 1000, "deep trees on 100-300 samples"),
+            Sub("round_trip", tree_case(), oracle_tree, 2000, 40000, "print -> parse -> evaluate == predict"),
             Sub("refusals", refuse_case(), oracle_refuse, 30, 100, "unfitted / foreign objects", shards=False)]
